@@ -411,7 +411,9 @@ def handlers_configuration_rule(ctx):
         ctx.report('C20.R11', q, 'GcodeHandlers constructed with different argument shapes: %r' % (sorted(set(shapes.values())),),
                    'the live handlers and the stream processor\'s handlers are built with different arguments', line=line)
     if not any(q.startswith('StreamProcessor.') for (q, _l) in shapes):
-        raise AnalysisError('anchor vanished: StreamProcessor no longer constructs its own GcodeHandlers')
+        # not a verdict by itself (the isolation rule C20.R1 decides whether live objects are shared): fail the run only if
+        # nothing else is found
+        ctx.deferred_errors.append('anchor vanished: StreamProcessor no longer constructs its own GcodeHandlers')
 
 
 def handler_shape_paths(col, gcode, paths, I):
